@@ -11,10 +11,13 @@ use crate::shapes::{self, ShapeSpec};
 use crate::simfs::SimFs;
 use crate::{dbutil, watch};
 
+const SHAPES_QUICK: u64 = 48;
+const SHAPES_THOROUGH: u64 = 500;
+
 pub fn plan(tier: &str) -> u64 {
     match tier {
-        "quick" => 48,
-        _ => 500,
+        "quick" => SHAPES_QUICK + 32,
+        _ => SHAPES_THOROUGH + 300,
     }
 }
 
@@ -260,8 +263,93 @@ pub fn run_program(
     ProgramStats { steps: checker.steps, reversals: checker.reversals }
 }
 
+/// A snapshot after every single write, then everything is compacted into small files and every
+/// snapshot is walked by its own cursor program. Whatever entry happens to be the last one of a
+/// table file (or of a block), some iterator reads at exactly that entry's sequence number - the
+/// lookup key then *equals* a file's or block's upper bound, the edge every "which file, which
+/// block" search has. The other shapes reach it only when the newest write of the whole database
+/// ends a file.
+fn case_snapshot_per_write(out: &mut CaseOut, tier: &str, seed: u64, j: u64) {
+    use crate::gen::{self, Config, KeyFamily};
+    let mut rng = Rng::new(mix(&[seed, j], "c04-snapshot-per-write"));
+    let d = director();
+    d.reset(rng.next_u64());
+    let cfg = Config { memtable: *rng.pick(&[2048usize, 65536]), file: *rng.pick(&[512u64, 1024, 2048]), block: *rng.pick(&[64usize, 256]), reuse: true };
+    let fs = SimFs::from_image(&dbutil::root_image());
+    let mut sess = Session::new(fs, cfg);
+    if let Err(e) = sess.open() {
+        out.violate("C04/open-failed", json!({"error": e}));
+        return;
+    }
+    let family = KeyFamily::ALL[(j % 6) as usize];
+    let pool_size = rng.range(6, 24) as usize;
+    let pool = gen::key_pool(&mut rng, family, pool_size);
+    let n = if tier == "quick" { rng.range(30, 70) } else { rng.range(40, 120) };
+    let mut frozen: Vec<(raindb::Snapshot, Map)> = vec![];
+    let mut failed = false;
+    for i in 0..n {
+        let k = rng.pick(&pool).clone();
+        let len = rng.range(10, 160) as usize;
+        let r = if rng.chance(0.2) { sess.delete(&k) } else { sess.put(&k, &gen::tagged_value(&mut rng, &format!("w{i}:"), len)) };
+        if r.is_err() {
+            failed = true;
+            break;
+        }
+        frozen.push((sess.db().get_snapshot(), sess.model.clone()));
+        if rng.chance(0.06) {
+            sess.compact(None, None);
+        }
+    }
+    if failed {
+        out.inconclusive("degenerate: write refused while loading");
+    } else {
+        sess.compact(None, None);
+        sess.wait_quiescent(std::time::Duration::from_secs(20));
+        let levels = sess.shape();
+        let multi_file_level = levels.iter().skip(1).any(|n| *n >= 2);
+        let (_, sig) = shapes::children_and_signature(&sess);
+        let mut steps = 0;
+        let mut reversals = 0;
+        let mut programs = 0u64;
+        let stride = (frozen.len() / if tier == "quick" { 30 } else { 60 }).max(1);
+        for (i, (snap, model)) in frozen.iter().enumerate() {
+            if i % stride != 0 && i + 4 < frozen.len() {
+                continue;
+            }
+            let ctx = json!({"family": "snapshot-after-every-write", "config": cfg.describe(), "keys": family.name(), "lsm": sig, "snapshot_after_write": i, "writes": frozen.len()});
+            let program_steps = rng.range(60, 160) as usize;
+            let st = run_program(out, &mut rng, &sess, Some(snap), model, program_steps, &ctx, "C04");
+            steps += st.steps;
+            reversals += st.reversals;
+            programs += 1;
+            if out.is_violated() {
+                break;
+            }
+        }
+        out.add("cursor_steps", steps);
+        out.add("direction_reversals", reversals);
+        out.add("programs", programs);
+        out.add("snapshot_per_write_programs", programs);
+        if multi_file_level {
+            out.nontrivial(format!("snapshot-per-write/{}/{}", family.name(), sig));
+        }
+    }
+    for (s, _) in frozen {
+        sess.db().release_snapshot(s);
+    }
+    sess.close();
+    super::c09::judge_bg_panics(out, "C04/aux");
+    out.violations.retain(|v| !v.sig.starts_with("C04/aux"));
+    out.sample = Some(json!({"family": "snapshot-after-every-write", "config": cfg.describe(), "keys": family.name()}));
+}
+
 pub fn run_case(tier: &str, seed: u64, idx: u64) -> CaseOut {
     let mut out = CaseOut::new();
+    let shapes_n = if tier == "quick" { SHAPES_QUICK } else { SHAPES_THOROUGH };
+    if idx >= shapes_n {
+        case_snapshot_per_write(&mut out, tier, seed, idx - shapes_n);
+        return out;
+    }
     let mut rng = Rng::new(mix(&[seed, idx], "c04"));
     let d = director();
     d.reset(rng.next_u64());
